@@ -238,6 +238,16 @@ fn ascii_only_from_utf8(v: &[u8]) -> Result<&str, Utf8Error> {
     Ok(unsafe { str::from_utf8_unchecked(v) })
 }
 
+/// Stand-in for the alternatives of `argument` that come after the decimal
+/// number.  On a list of decimal numbers they are never tried; the stand-in
+/// PANICS when it is called, so the proof shows that they are indeed not called
+/// (hence replacing them changes nothing), while the spurious pass described at
+/// `run_arguments` gets much cheaper.
+#[allow(dead_code)]
+fn never_tried(_input: &[u8]) -> ParseResult<'_, Value<'_>> {
+    panic!("alternative after decimal_numeric_program_data tried on a decimal list")
+}
+
 fn is_decimal_digit(v: &Value<'_>, digit: u8) -> bool {
     match v {
         Value::Decimal(s) => s.len() == 1 && s.as_bytes()[0] == digit,
@@ -276,6 +286,12 @@ fn run_arguments<'a>(
 #[kani::proof]
 #[kani::unwind(10)]
 #[kani::stub(core::str::from_utf8, ascii_only_from_utf8)]
+#[kani::stub(hexadecimal_numeric_program_data, never_tried)]
+#[kani::stub(binary_numeric_program_data, never_tried)]
+#[kani::stub(octal_numeric_program_data, never_tried)]
+#[kani::stub(single_quoted_string_program_data, never_tried)]
+#[kani::stub(double_quoted_string_program_data, never_tried)]
+#[kani::stub(arbitrary_program_data, never_tried)]
 fn k_arguments_max_10() {
     let input: &[u8] = b"1,2,3,4,5,6,7,8,9,0\n";
     let mut args: Vec<Value<'_>, MAX_ARGS> = Vec::new();
